@@ -227,6 +227,8 @@ pub fn outage(sseed: u64, _tier: Tier) -> Report {
     let mut rep = Report::default();
     let (w, stats, ()) = run_sim(rng.next(), |sim| {
         let w = sim.w.clone();
+        // hours of outage against a dead backend: a request is legitimately re-issued very often
+        w.runaway_cap.store(u64::MAX, std::sync::atomic::Ordering::Relaxed);
         let layer = match which {
             0 => ReconnectLayer::with_defaults(),
             1 => ReconnectLayer::new(ReconnectConfig::builder().policy(ReconnectPolicy::exponential(Duration::from_millis(100), Duration::from_secs(5))).unlimited_attempts().build()),
